@@ -11,7 +11,7 @@ use crate::framework::{guard, Caught};
 use crate::jobj;
 use crate::json::Json;
 use crate::model::arr::{Arr, ArrGen};
-use crate::model::cost::{gen_cost, Cost};
+use crate::model::cost::{gen_cost_z, Cost};
 use crate::model::dem::Dem;
 use crate::model::uni::Outcome;
 use crate::oracle::sbf::{DefaultInverse, Sup};
@@ -281,7 +281,7 @@ fn gen_rbf(rng: &mut Rng, scale: u64, share: u64, scalar_only: bool, allow_never
     let arr = if rng.chance(1, 4) { g.any(rng, 1) } else { g.leaf(rng) };
     let sep = crate::model::uni::mean_separation(&arr).max(1);
     let cmax = (sep * share / 100).clamp(1, 30);
-    let cost = if scalar_only { Cost::Scalar(rng.range(1, cmax)) } else { gen_cost(rng, cmax, false) };
+    let cost = if scalar_only { Cost::Scalar(rng.range(1, cmax)) } else { gen_cost_z(rng, cmax) };
     Dem::Rbf(arr, cost)
 }
 
@@ -356,7 +356,7 @@ pub fn gen_problem(rng: &mut Rng, which: Option<usize>, limit: u64) -> RosProble
                 let arr = if rng.chance(1, 5) { g.any(rng, 1) } else { g.leaf(rng) };
                 let sep = crate::model::uni::mean_separation(&arr).max(1);
                 let cmax = (sep * target / 100 / n as u64).clamp(1, 25);
-                let cost = if rng.chance(1, 4) { gen_cost(rng, cmax, false) } else { Cost::Scalar(rng.range(1, cmax)) };
+                let cost = if rng.chance(1, 4) { gen_cost_z(rng, cmax) } else { Cost::Scalar(rng.range(1, cmax)) };
                 let kind = match rng.range(0, if all_kinds { 5 } else { 3 }) {
                     0 => Kind::Timer,
                     1 | 2 => Kind::PolledUnknown,
